@@ -170,6 +170,11 @@ impl ChannelQueue {
       ChannelQueueKind::Sync => {
         if self.is_empty() && !self.is_closed() {
           find_runnable_waiter(&mut self.send_waiters)
+        } else if self.is_closed() && self.is_empty() {
+          // once closed parked senders need to run as well to observe the close.
+          // While a value is still queued its sender must stay parked until it is taken
+          find_runnable_waiter(&mut self.receive_waiters)
+            .or_else(|| find_runnable_waiter(&mut self.send_waiters))
         } else {
           find_runnable_waiter(&mut self.receive_waiters)
         }
@@ -177,7 +182,11 @@ impl ChannelQueue {
       ChannelQueueKind::Buffered => {
         if self.is_empty() && !self.is_closed() {
           find_runnable_waiter(&mut self.send_waiters)
-        } else if self.len() == self.capacity || self.is_closed() {
+        } else if self.is_closed() {
+          // once closed parked senders need to run as well to observe the close
+          find_runnable_waiter(&mut self.receive_waiters)
+            .or_else(|| find_runnable_waiter(&mut self.send_waiters))
+        } else if self.len() == self.capacity {
           find_runnable_waiter(&mut self.receive_waiters)
         } else {
           find_runnable_waiter(&mut self.send_waiters)
